@@ -25,9 +25,35 @@ REPR_NORMALISERS = [
 ]
 
 
+_SET_WITH_OBJECT = re.compile(r"\{([^{}\[\]]*<(?:function|class|object|built-in function|built-in method|bound method|method|module)[^{}\[\]]*)\}")
+
+
+def _sort_set_display(m):
+    """a set display that contains functions / classes / objects is ordered by id(): order its items textually (top-level commas only)"""
+    body = m.group(1)
+    items, depth, cur = [], 0, ''
+    for ch in body:
+        if ch in '(<':
+            depth += 1
+        elif ch in ')>':
+            depth -= 1
+        if ch == ',' and depth == 0:
+            items.append(cur.strip())
+            cur = ''
+        else:
+            cur += ch
+    if cur.strip():
+        items.append(cur.strip())
+    if any(':' in it and not it.startswith(("'", '"', '<', '(')) for it in items):
+        return m.group(0)
+    return '{' + ', '.join(sorted(items)) + '}'
+
+
 def normalise_stdout(s):
     for rx, rep in REPR_NORMALISERS:
         s = rx.sub(rep, s)
+    if '{' in s and '<' in s:
+        s = _SET_WITH_OBJECT.sub(_sort_set_display, s)
     return s
 
 
